@@ -42,7 +42,7 @@ TF = 'chainables.tree_fns'
 
 
 def run(ctx: Ctx):
-  for r in (r1, r2, r3, r4):
+  for r in (r1, r2, r3, r4, r5):
     ctx.guard(r)
 
 
@@ -106,7 +106,17 @@ def r1(ctx: Ctx):
   g = cfgm.cfg_of(fi.node)
   raises = [n for n in g.nodes if isinstance(n.ast, ast.Raise) and 'ValueError' in unparse(n.ast)]
   col_cnt = [c for c in g.nodes if c.kind == 'cond' and 'len(' in unparse(c.ast) and 'num_columns' in unparse(c.ast)]
-  hetero = [c for c in g.nodes if c.kind == 'cond' and 'all(' in unparse(c.ast) and sizes in unparse(c.ast)]
+  def _is_hetero(t):
+    # `not all(<..> for e in <sizes>)` (or the any(!=) dual)
+    neg = isinstance(t, ast.UnaryOp) and isinstance(t.op, ast.Not)
+    c_ = t.operand if neg else t
+    if not (isinstance(c_, ast.Call) and unparse(c_.func) in ('all', 'any') and c_.args and isinstance(
+        c_.args[0], ast.GeneratorExp)):
+      return False
+    if (unparse(c_.func) == 'all') != neg:
+      return False
+    return any(unparse(g_.iter) == sizes for g_ in c_.args[0].generators)
+  hetero = [c for c in g.nodes if c.kind == 'cond' and _is_hetero(c.ast)]
   ok_r = (col_cnt and hetero and all(any(isinstance(s.ast, ast.Raise) for s, lab in c.succ if lab == 'true')
                                      for c in col_cnt + hetero))
   if ok_r:
@@ -336,10 +346,87 @@ def r4(ctx: Ctx):
   ctx.floor(rule, 5)
 
 
+def r5(ctx: Ctx):
+  rule = 'R-C19-5'
+  ctx.rule(rule, 'nothing overtakes the buffer: inside the re-batching loop a'
+           ' `yield` never emits values taken directly from the current input'
+           ' batch (or names derived from it) — every row leaves through the'
+           ' column buffers, behind the rows already waiting there; a direct'
+           ' forward is only admissible under a test that the buffers are'
+           ' empty')
+  from mlmverif.core import parent_map
+  fi = ctx.repo.func(IU, 'rebatched_args')
+  R = _names(fi)
+  loops = [x for x in walk_no_nested(fi.node) if isinstance(x, ast.While)]
+  if not loops:
+    raise AnalysisError(f'{rule}: main loop of rebatched_args not found')
+  loop = loops[0]
+  intake = None
+  for x in ast.walk(loop):
+    if isinstance(x, ast.NamedExpr) and isinstance(x.value, ast.Call) and unparse(x.value.func) == 'next':
+      intake = x.target.id
+    if isinstance(x, ast.Assign) and isinstance(x.value, ast.Call) and unparse(
+        x.value.func) == 'next' and isinstance(x.targets[0], ast.Name):
+      intake = x.targets[0].id
+  if intake is None:
+    raise AnalysisError(f'{rule}: the input batch variable was not found')
+  tainted = {intake}
+  sinks = {R['buffer'], R['sizes']}
+  for _ in range(4):
+    for x in ast.walk(loop):
+      if isinstance(x, (ast.For, ast.comprehension)) and any(
+          isinstance(y, ast.Name) and y.id in tainted for y in ast.walk(x.iter)):
+        tainted |= {y.id for y in ast.walk(x.target) if isinstance(y, ast.Name)}
+      if isinstance(x, ast.Assign) and any(isinstance(y, ast.Name) and y.id in tainted
+                                           for y in ast.walk(x.value)):
+        for t in x.targets:
+          if isinstance(t, ast.Name) and t.id not in sinks:
+            tainted.add(t.id)
+  tainted -= sinks
+  pm = parent_map(fi.node)
+  n = 0
+  for y in ast.walk(loop):
+    if not isinstance(y, (ast.Yield, ast.YieldFrom)) or y.value is None:
+      continue
+    n += 1
+    direct = [z.id for z in ast.walk(y.value) if isinstance(z, ast.Name) and z.id in tainted]
+    if not direct:
+      ctx.ok(rule, fi, f'yield {unparse(y.value)[:40]} comes from the buffers', y)
+      continue
+    guarded = False
+    q = y
+    while q is not loop:
+      par = pm.get(q)
+      if isinstance(par, ast.If) and any(q is b or q in ast.walk(b) for b in par.body):
+        cs = par.test.values if isinstance(par.test, ast.BoolOp) and isinstance(
+            par.test.op, ast.And) else [par.test]
+        for c in cs:
+          if isinstance(c, ast.UnaryOp) and isinstance(c.op, ast.Not) and any(
+              isinstance(z, ast.Name) and z.id in sinks for z in ast.walk(c.operand)):
+            guarded = True
+      q = par
+    if guarded:
+      ctx.ok(rule, fi, f'direct forward of {direct} only with empty buffers', y)
+    else:
+      ctx.fail(rule, fi, f'rebatched_args: yield of the input batch ({", ".join(sorted(set(direct)))}) bypasses the buffers',
+               f'`yield {unparse(y.value)[:50]}` forwards the current input batch'
+               ' directly while earlier rows may still wait in the column'
+               ' buffers: rows are emitted out of order (the waiting remainder'
+               ' comes after rows that arrived later)', node=y)
+  ctx.floor(rule, 3, n)
+
+
 from mlmverif.selfcheck import B, OK  # noqa: E402
 
 _F = 'utils/iter_utils.py'
 VARIANTS = [
+    B('array-fast-path-overtakes-remainder', _F,
+      "        raise ValueError(f'Mismatched columns: {len(batch)} != {num_columns=}')\n",
+      "        raise ValueError(f'Mismatched columns: {len(batch)} != {num_columns=}')\n      if batch and all(hasattr(column, '__array__') and _batch_size(column) == batch_size for column in batch):\n        yield tuple(batch)\n        continue\n",
+      'R-C19-5'),
+    OK('array-fast-path-with-empty-buffers', _F,
+       "        raise ValueError(f'Mismatched columns: {len(batch)} != {num_columns=}')\n",
+       "        raise ValueError(f'Mismatched columns: {len(batch)} != {num_columns=}')\n      if not batch_sizes[0] and batch and all(_batch_size(column) == batch_size for column in batch):\n        yield tuple(batch)\n        continue\n"),
     B('carry-dropped', _F,
       '        column_buffer = [[column] for column in last_columns]\n        batch_sizes += [_batch_size(column) for column in last_columns]\n',
       '        pass\n', 'R-C19-3'),
